@@ -255,6 +255,7 @@ func decodePointsCompressed(d *decoder, level int, target []Point) {
 		target[idx].X = d.readFloat64()
 		target[idx].Y = d.readFloat64()
 		target[idx].Z = d.readFloat64()
+		d.checkUnitLength(target[idx : idx+1])
 	}
 }
 
